@@ -11,6 +11,7 @@
 #include <omp.h>
 
 static int g_fail = 0;
+static int g_replays = 0;
 #define EXPECT(cond, msg)                                         \
     do                                                            \
     {                                                             \
@@ -178,10 +179,29 @@ static bool run_case(const Case &c, int strategy, int threads, uint64_t seed, lo
     cfg.sched_seed = seed;
     cfg.step_estimate = 200;
     cfg.step_limit = 10000000;
+    cfg.record_schedule = true;
     sim::begin_op(cfg);
     c.fn(k);
     sim::OpStats st = sim::end_op();
     race = st.race.found;
+    // replay equivalence: the recorded decision list must reproduce the same interleaving (same decision
+    // hash, same result) for every construct, including barrier / critical / atomic waits and dynamic loops
+    if (!st.recorded_truncated)
+    {
+        std::vector<uint64_t> a2 = a0, b2(n, 0);
+        K k2{a2.data(), b2.data(), n, 0};
+        sim::set_machine(mc);
+        sim::OpSim rc = cfg;
+        rc.strategy = sim::ST_REPLAY;
+        rc.replay = st.recorded;
+        rc.record_schedule = false;
+        sim::begin_op(rc);
+        c.fn(k2);
+        sim::OpStats st2 = sim::end_op();
+        EXPECT(st2.sched_hash == st.sched_hash, c.name);
+        EXPECT(a2 == a && b2 == b && k2.sum == k.sum, c.name);
+        g_replays++;
+    }
     bool ok = true;
     switch (c.check)
     {
@@ -265,6 +285,6 @@ int main()
         printf("SELFTEST-FAIL %d failures in %d runs\n", g_fail, runs);
         return 1;
     }
-    printf("SELFTEST-OMP ok: %d kernel executions, %zu kernels\n", runs, sizeof cases / sizeof cases[0]);
+    printf("SELFTEST-OMP ok: %d kernel executions, %zu kernels, %d explicit-schedule replays identical\n", runs, sizeof cases / sizeof cases[0], g_replays);
     return 0;
 }
